@@ -627,7 +627,7 @@ def fdf_pre(E, v, o):
 def fdf_post(which):
     def f(E, v, o):
         t, df, nm = v["result"], o["df"], _resolved(o["names"])
-        if not tree_shaped(t, nm):
+        if fdf_pre(E, o, o) is not True or not tree_shaped(t, nm):
             return False
         if which == "a-Tree-with-exactly-the-seven-named-columns":
             return True
